@@ -155,8 +155,9 @@ def permute(spec, perms):
     p = perms.get("constraints")
     if p and len(p) == len(s["constraints"]):
         cs = [s["constraints"][i] for i in p]
-        fa = [c for c in cs if c["type"] == "ForceApplyNOptionalConstraints"]
-        rest = [c for c in cs if c["type"] != "ForceApplyNOptionalConstraints"]
+        late = ("GroupPrecedence", "ForceApplyNOptionalConstraints")  # declared after the constraints they name
+        fa = [c for ty in late for c in cs if c["type"] == ty]
+        rest = [c for c in cs if c["type"] not in late]
         s["constraints"] = rest + fa
     return s
 
